@@ -24,6 +24,7 @@ import GraphiqModel.Proofs.HilbertDimMix
 import GraphiqModel.Proofs.HilbertDimProg
 import GraphiqModel.Proofs.HilbertDimAdjoint
 import GraphiqModel.Proofs.HilbertDimCPTP
+import GraphiqModel.Proofs.HilbertDimExpect
 namespace Graphiq.C07
 open Graphiq Graphiq.PRow Graphiq.Tab
 
@@ -1399,5 +1400,31 @@ theorem api_semantics_is_quantum_operation (op : Tab.Op) (ops : List Tab.Op) (s 
 /-- the state of every valid tableau is a density matrix, so the theorem applies along every history -/
 example : IsDensity (dstate ghz3) :=
   ⟨(stabilizer_state_is_pure ghz3 ghz3_valid).2.2.2, (stabilizer_state_is_pure ghz3 ghz3_valid).1⟩
+
+/-! ### 7.9 the tableau describes the state faithfully -/
+
+/-- **Pauli expectation values**: in the state of a valid Clifford tableau a real Pauli `g` has expectation value
+    `tr(g ρ) = +1` if `g` is in the stabilizer group, `−1` if `−g` is, and `0` otherwise -/
+theorem pauli_expectation_values (t : Tab) (hv : t.Valid) (hr : t.StabReal) (g : PRow) (hg : g.ip = false) :
+    (Grp t g → Matrix.trace (pauliMat t.n g * rho t.n (STab.ofTab t)) = 1) ∧
+    (Grp t (negate g) → Matrix.trace (pauliMat t.n g * rho t.n (STab.ofTab t)) = -1) ∧
+    (¬ Grp t g → ¬ Grp t (negate g) → Matrix.trace (pauliMat t.n g * rho t.n (STab.ofTab t)) = 0) :=
+  pauli_expectation t hv hr g hg
+
+/-- **The density matrix and the signed stabilizer group determine each other**: two valid tableaux on the same number of
+    qubits have the same density matrix iff they have the same stabilizer group.  (`⇐` is gauge independence; `⇒` says
+    that the group-level refinement `history_tracks_state` loses nothing: tableaux with different groups are different
+    states.)  And if some `P` lies in one group while `−P` lies in the other, the states are orthogonal. -/
+theorem stabilizer_state_determines_group (n : Nat) (a b : Tab) (ha : a.n = n) (hb : b.n = n) (va : a.Valid)
+    (ra : a.StabReal) (vb : b.Valid) (rb : b.StabReal) :
+    (rho n (STab.ofTab a) = rho n (STab.ofTab b) ↔ ∀ P, Grp a P ↔ Grp b P) ∧
+    (∀ P, Grp a P → Grp b (negate P) → rho n (STab.ofTab a) * rho n (STab.ofTab b) = 0) :=
+  ⟨rho_eq_iff_grp_eq n a b ha hb va ra vb rb, fun P => rho_mul_eq_zero_of_orth n a b ha hb va ra vb rb P⟩
+
+/-- `|00⟩` and `|11⟩`: `Z₀` is in one group, `−Z₀` in the other — orthogonal states -/
+example : rho 2 (STab.ofTab (Tab.ket0 2)) * rho 2 (STab.ofTab (Tab.ket1 2)) = 0 :=
+  (stabilizer_state_determines_group 2 (Tab.ket0 2) (Tab.ket1 2) rfl rfl (ket0_is_valid 2) (ket0_stabReal 2)
+    ((isSymplectic_iff_valid _).mp (by decide)) (stabRealB_spec _ (by decide))).2 (Zq 0)
+    (grp_gen (Tab.ket0 2) 0 (by decide)) (grp_gen (Tab.ket1 2) 0 (by decide))
 
 end Graphiq.C07
